@@ -9,6 +9,11 @@
 (* one cached dataset under option values from Keys; the value belonging   *)
 (* to key k is the term F(k), so a wrong or stale value is always visible. *)
 (*                                                                         *)
+(* The dataset is evaluated directly, or as the first member of            *)
+(* Coalesce(dataset, fallback): the coalesce validates the member first    *)
+(* (Cached.validate: one exists() call; whatever it answers the member can  *)
+(* be evaluated) and then evaluates it -- the fallback is never the answer. *)
+(*                                                                         *)
 (*   evaluate:  if exists(): try: return get()  except CacheGetFailure: .  *)
 (*              v = compute();  set(v);  try: return get()                 *)
 (*                                       except CacheGetFailure: return v  *)
@@ -44,11 +49,22 @@ Init ==
 
 MayFault(f) == f = "behave" \/ ncalls < MaxFaulty
 
-Start(k) ==
+Vias == {"direct", "coalesce"}
+
+Start(k, via) ==
     /\ pc = "idle" /\ nevals < MaxEvals
-    /\ pc' = "exists" /\ key' = k /\ val' = "none" /\ nevals' = nevals + 1
+    /\ pc' = (IF via = "coalesce" THEN "vexists" ELSE "exists") /\ key' = k /\ val' = "none" /\ nevals' = nevals + 1
     /\ UNCHANGED <<store, ncalls, runs>>
-    /\ act' = [a |-> "Start", k |-> k]
+    /\ act' = [a |-> "Start", k |-> k, via |-> via]
+
+\* Cached.validate (called by the coalesce): the backend is asked whether the entry exists; if it says no the wrapped
+\* dataset is validated (no backend call); either way the member validates and is evaluated next
+VExists(f) ==
+    /\ pc = "vexists" /\ MayFault(f) /\ f \in {"behave", "miss", "lie"}
+    /\ LET r == IF f = "miss" THEN FALSE ELSE IF f = "lie" THEN TRUE ELSE key \in store IN
+       act' = [a |-> "Exists", k |-> key, f |-> f, r |-> IF r THEN "True" ELSE "False"]
+    /\ pc' = "exists" /\ ncalls' = ncalls + 1
+    /\ UNCHANGED <<store, key, val, nevals, runs>>
 
 Exists(f) ==
     /\ pc = "exists" /\ MayFault(f) /\ f \in {"behave", "miss", "lie"}
@@ -94,8 +110,8 @@ Return ==
     /\ act' = [a |-> "Return", k |-> key, v |-> val, runs |-> runs]
 
 Next ==
-    \/ \E k \in Keys : Start(k)
-    \/ \E f \in Faults : Exists(f) \/ Get(f) \/ Set(f) \/ Readback(f)
+    \/ \E k \in Keys, via \in Vias : Start(k, via)
+    \/ \E f \in Faults : VExists(f) \/ Exists(f) \/ Get(f) \/ Set(f) \/ Readback(f)
     \/ Compute \/ Return
 
 Spec == Init /\ [][Next]_vars
